@@ -65,6 +65,13 @@ void run_C03(vh::Ctx& c) {
     if (E[0] != a[0]) c.violation(vh::fmt("C03:evolve:d%d:identity-component-changed", d), vh::fmt("%.17g -> %.17g", a[0], E[0]));
     for (int l = 1; l < d; l++) if (E[d * l + l] != a[d * l + l]) { c.violation(vh::fmt("C03:evolve:d%d:diagonal-component-changed", d), vh::fmt("component %d: %.17g -> %.17g", d * l + l, a[d * l + l], E[d * l + l])); break; }
     if (H.GetComponents() != h || A.GetComponents() != a) c.violation("C03:evolve:operand-modified", "H or A changed");
+    // the operator may be the evolved vector itself: a diagonal operator commutes with itself
+    {
+      SU_vector HH = make(h);
+      SU_vector R = HH.Evolve(HH, t);
+      c.eval();
+      if (R.GetComponents() != h) c.violation(vh::fmt("C03:evolve:d%d:operator-evolved-by-itself-changed", d), "H.Evolve(H,t) != H");
+    }
     // t = 0 is the identity (every phase is exactly 0)
     {
       SU_vector Z = A.Evolve(H, 0.0);
